@@ -17,10 +17,22 @@ theorem hoistElems_eq (as : List (String × Val)) : hoistElems as = hoistElemsOf
   unfold hoistElems hoistElemsOf
   cases sLookup as "elements" <;> rfl
 
-theorem setEq_iff {a b : List String} (h : setEq a b = true) : ∀ x, x ∈ a ↔ x ∈ b := by
-  simp only [setEq, Bool.and_eq_true, List.all_eq_true] at h
-  intro x
-  exact ⟨fun hx => by simpa using h.1 x hx, fun hx => by simpa using h.2 x hx⟩
+theorem subsetOf_iff {a b : List String} (h : subsetOf a b = true) : ∀ x, x ∈ a → x ∈ b := by
+  simp only [subsetOf, List.all_eq_true] at h
+  intro x hx
+  simpa using h x hx
+
+/-- what the facts about the own name of a function expression give -/
+theorem selfFacts_spec {fin : Final} {mc : MCtx} {p : SPath} {q : Path} {g : String} (h : selfFacts fin mc p q g = true) :
+    (∀ n, tauN (tauFin fin) .self p n = resolveChain mc.chain n) ∧ g ∈ ckeys (effRefs mc.chain) ∧
+      lookupPath fin.identifiers q = some mc.sid := by
+  simp only [selfFacts, Bool.and_eq_true] at h
+  obtain ⟨⟨h1, h2⟩, h3⟩ := h
+  have h1' : (tablesOfNode fin p).tail = entriesOf mc.chain := of_decide_eq_true h1
+  refine ⟨?_, by simpa using h2, of_decide_eq_true h3⟩
+  intro n
+  have e : tauN (tauFin fin) .self p n = resolveTables ((tablesOfNode fin p).tail) n := rfl
+  rw [e, h1', resolveTables_entries]
 
 theorem roleOf_params_func {kind a : String} {hi fi : Bool} (h : roleOf kind a hi fi = .params) :
     isFunctionKind kind = true := by
@@ -79,6 +91,36 @@ theorem roleOf_catchParam {kind a : String} {hi fi : Bool} (h : roleOf kind a hi
                     · split at h <;> cases h
                     · cases h
 
+theorem roleOf_selfName {kind a : String} {hi fi : Bool} (h : roleOf kind a hi fi = .selfName) :
+    isFunctionKind kind = true := by
+  unfold roleOf at h
+  simp only [isFunctionKind]
+  split at h
+  · cases h
+  · split at h
+    · split at h
+      · cases h
+      · split at h <;> cases h
+    · split at h
+      · rename_i hk; simp [hk]
+      · split at h
+        · split at h <;> cases h
+        · split at h
+          · split at h
+            · cases h
+            · split at h <;> cases h
+          · split at h
+            · split at h <;> cases h
+            · split at h
+              · split at h <;> cases h
+              · split at h
+                · split at h <;> cases h
+                · split at h
+                  · split at h <;> cases h
+                  · split at h
+                    · split at h <;> cases h
+                    · cases h
+
 /-- what the context of the `inner` attributes of a node of kind `kind` at `p` looks like -/
 def InnerOK (kind : String) (p : SPath) (inner : Ctx) : Prop :=
   (isFunctionKind kind = true → inner.varKind = .var ∧ inner.varScope = p) ∧
@@ -88,19 +130,22 @@ section
 variable {fin : Final}
 
 /-- one attribute: the facts give the site conditions -/
-theorem roleCond_of_facts {octx ictx : Ctx} {omc imc : MCtx} (hio : Inv fin octx omc) (hii : Inv fin ictx imc)
+theorem roleCond_of_facts {recs : List Rec} {octx ictx : Ctx} {omc imc : MCtx} (hio : Inv fin octx omc) (hii : Inv fin ictx imc)
     (p : SPath) (a : String) (v : Val) (role : Role) (fF fI fO cF cI cO : Bool)
     (hparams : role = .params → ictx.varKind = .var ∧ ictx.varScope = p)
     (hcatch : role = .catchParam → ∃ c E', ictx.env = { kind := .catch, scope := p, names := [c] } :: E')
-    (h : roleFacts fin omc imc p a v role fF fI fO = true)
+    (h : roleFacts fin recs omc imc p a v role fF fI fO = true)
     (hF : fF = true → cF = true) (hI : fI = true → cI = true) (hO : fO = true → cO = true) :
     roleCond (tauFin fin) (rhoFin fin) octx p a v role cF cI cO = true := by
   cases role with
   | skip => rfl
   | funcDeclName => exact declSites_declCond hio p a v (by simpa [roleFacts] using h)
   | selfName =>
-    simp only [roleFacts, List.isEmpty_iff] at h
-    simp [roleCond, declCond, h]
+    simp only [roleFacts, List.all_eq_true] at h
+    simp only [roleCond, declCond, List.all_eq_true, beq_iff_eq]
+    intro q hq
+    obtain ⟨htau, _, hreg⟩ := selfFacts_spec (h q hq)
+    rw [rho_at hio hreg, htau]
   | params =>
     obtain ⟨h1, h2⟩ := hparams rfl
     have := declSites_declCond hii p a v (by simpa [roleFacts] using h)
@@ -112,23 +157,36 @@ theorem roleCond_of_facts {octx ictx : Ctx} {omc imc : MCtx} (hio : Inv fin octx
     simp only [roleCond, declCond, List.all_eq_true, beq_iff_eq]
     intro q hq
     exact catchSite_eq hii he (h q hq)
-  | labelDecl => simp [roleFacts] at h
+  | labelDecl =>
+    simp only [roleFacts, List.all_eq_true, Bool.and_eq_true, beq_iff_eq] at h
+    simp only [roleCond, declCond, List.all_eq_true, beq_iff_eq]
+    intro q hq
+    have e : tauN (tauFin fin) .label p q.2 = rhoFin fin (("identifier", 0) :: p.reverse) q.2 := rfl
+    rw [e, (h q hq).1]
   | labelRef =>
-    simp only [roleFacts, List.isEmpty_iff] at h
-    simp [roleCond, h]
+    simp only [roleFacts, List.all_eq_true, Bool.and_eq_true, beq_iff_eq] at h
+    simp only [roleCond, List.all_eq_true, decide_eq_true_eq]
+    intro q hq
+    obtain ⟨⟨hreg, hkey⟩, hok⟩ := h q hq
+    rw [rho_at hio hreg, ← hio.labels]
+    exact labelRef_link hio.al q.2 (by simpa using hkey) omc.labels hio.lblOK hok
   | varName assigned =>
-    simp only [roleFacts, declSites, List.all_eq_true] at h
+    simp only [roleFacts, declSites, List.all_eq_true, Bool.and_eq_true, Bool.or_eq_true, Bool.not_eq_true'] at h
     simp only [roleCond, List.all_eq_true, Bool.and_eq_true, beq_iff_eq, Bool.or_eq_true, Bool.not_eq_true']
     intro q hq
-    have hd := h q hq
+    have hd := h.1 q hq
     refine ⟨declSite_eq hio hd, ?_⟩
     by_cases ha : assigned = true
     · right
       apply refSite_refCond hio
       have hkey := declSite_refKey hio hd
+      have hx : noExtra omc.env omc.chain q.2 = true := by
+        rcases h.2 with h2 | h2
+        · rw [ha] at h2; cases h2
+        · exact h2 q hq
       simp only [declSite, Bool.and_eq_true] at hd
       simp only [refSite, Bool.and_eq_true]
-      exact ⟨hd.1, by simpa using hkey⟩
+      exact ⟨⟨hd.1, by simpa using hkey⟩, hx⟩
     · left; simpa using ha
   | forInItem => simpa [roleCond] using hF (by simpa [roleFacts] using h)
   | inner => simpa [roleCond] using hI (by simpa [roleFacts] using h)
@@ -137,11 +195,10 @@ theorem roleCond_of_facts {octx ictx : Ctx} {omc imc : MCtx} (hio : Inv fin octx
 /-- entering a node: the environment the node sets up belongs to the record the facts name -/
 theorem enter_of_facts (recs : List Rec) (hgood : ∀ R ∈ recs, ChainGood R.chain)
     {ctx : Ctx} {mc : MCtx} (hi : Inv fin ctx mc) (p : SPath) (k : String) (as : List (String × Val))
-    (hk2 : (k != "Label") = true) (inner : MCtx)
+    (inner : MCtx)
     (h : enterFacts fin recs mc p k as = some inner) :
     enterCond (tauFin fin) (rhoFin fin) p k as = true ∧ Inv fin (enter ctx p k as) inner ∧
       InnerOK k p (enter ctx p k as) := by
-  have hl : (k == "Label") = false := by simpa using hk2
   unfold enterFacts at h
   by_cases hf : isFunctionKind k = true
   · rw [if_pos hf] at h
@@ -165,28 +222,32 @@ theorem enter_of_facts (recs : List Rec) (hgood : ∀ R ∈ recs, ChainGood R.ch
           have hAk : A.kind = .func := by simpa using hAk0
           have htab : ((tablesOfNode fin p).headD (true, [])).2 = A.remapped := of_decide_eq_true htab0
           have hch : lookupChain fin.chains R.id = some (entriesOf (A :: C)) := of_decide_eq_true hch0
-          have hself : ¬ k = "FuncExpr" ∨ (identAttrOf' as).isNone = true := by simpa using hself0
           have hRmem : R ∈ recs := List.mem_of_find?_eq_some hR
           have hg : ChainGood (A :: C) := hRC ▸ hgood R hRmem
-          have hself' : (k == "FuncExpr") = true → identAttr as = none := by
-            intro hfe
-            rcases hself with h1 | h1
-            · exact absurd (by simpa using hfe) h1
-            · simpa [identAttr_eq] using h1
           -- the context `enter` builds
           have henter : enter ctx p k as =
-              { env := { kind := .var, scope := p, names := paramsOf k as ++ hoistElemsOf as } :: ctx.env,
-                varKind := .var, varScope := p, labels := [], forInItem := false } := by
+              { env := funcEnv ctx.env p k as, varKind := .var, varScope := p, labels := [], forInItem := false } := by
             rw [enter_unfold]
-            simp only [hf, if_true, hoistElems_eq, paramsOf]
+            simp only [hf, if_true, hoistElems_eq, paramsOf, funcEnv, selfNameOf, identAttr_eq]
             by_cases hfe : (k == "FuncExpr") = true
-            · simp [hfe, hself' hfe]
             · simp [hfe]
+            · simp [hfe]
+          -- the records of the own name and of the enclosing scopes
+          have halE : Al (tauFin fin)
+              ((selfNameOf k as).toList.map (fun g => ({ kind := .self, scope := p, names := [g] } : Layer)) ++ ctx.env) C := by
+            cases hs : selfNameOf k as with
+            | none => simpa using hC ▸ hi.al
+            | some g =>
+              rw [hs] at hself0
+              obtain ⟨htau, hkey, _⟩ := selfFacts_spec hself0
+              simp only [Option.toList_some, List.map_cons, List.map_nil, List.cons_append, List.nil_append]
+              exact hC ▸ .self p g ctx.env mc.chain htau hkey hi.al
           -- the inner invariant
-          have hinv : Inv fin (enter ctx p k as) { sid := R.id, chain := A :: C } := by
+          have hinv : Inv fin (enter ctx p k as)
+              { sid := R.id, chain := A :: C, env := funcEnv mc.env p k as, labels := [] } := by
             rw [henter]
-            refine ⟨?_, rfl, hch⟩
-            refine .func p _ ctx.env A C hAk (setEq_iff hset) ?_ hg (hC ▸ al_ne_nil hi.al) (hC ▸ hi.al)
+            refine ⟨?_, rfl, hch, by rw [hi.env], rfl, fun x hx => absurd hx List.not_mem_nil⟩
+            refine .func p _ _ A C hAk (subsetOf_iff hset) ?_ hg (hC ▸ al_ne_nil hi.al) halE
             intro n
             have e : tauN (tauFin fin) .var p n = applyTable ((tablesOfNode fin p).headD (true, [])).2 n := rfl
             rw [e, htab]
@@ -213,15 +274,20 @@ theorem enter_of_facts (recs : List Rec) (hgood : ∀ R ∈ recs, ChainGood R.ch
               rwa [hvk, hvs] at this
           · by_cases hfe : (k == "FuncExpr") = true
             · simp only [hfe, if_true]
-              have := hself' hfe
-              unfold identAttr at this
               unfold identSiteCond
               cases hv : sLookup as "identifier" with
               | none => rfl
               | some v =>
-                rw [hv] at this
-                simp only [Option.bind_some] at this
-                simp [this]
+                simp only
+                cases hn : identName v with
+                | none => rfl
+                | some g =>
+                  have hs : selfNameOf k as = some g := by
+                    simp [selfNameOf, hfe, identAttrOf', hv, hn]
+                  rw [hs] at hself0
+                  obtain ⟨htau, _, hreg⟩ := selfFacts_spec hself0
+                  simp only [beq_iff_eq]
+                  rw [rho_at hi hreg, htau]
             · simp [hfe]
         · rw [if_neg hall] at h; cases h
   · rw [if_neg hf] at h
@@ -237,14 +303,63 @@ theorem enter_of_facts (recs : List Rec) (hgood : ∀ R ∈ recs, ChainGood R.ch
       simp only [hf, Bool.false_eq_true, if_false, hc, if_true]
       exact hsc
     · rw [if_neg hc] at h
-      simp only [Option.some.injEq] at h
-      subst h
-      have henter : enter ctx p k as = ctx := by
-        rw [enter_unfold]
+      by_cases hl : (k == "Label") = true
+      · rw [if_pos hl] at h
+        have hcond : enterCond (tauFin fin) (rhoFin fin) p k as = true := by
+          unfold enterCond
+          simp only [hf, Bool.false_eq_true, if_false, hc, hl, if_true]
+          unfold identSiteCond
+          cases hv : sLookup as "identifier" with
+          | none => rfl
+          | some v =>
+            simp only
+            cases hn : identName v with
+            | none => rfl
+            | some n =>
+              simp only [beq_iff_eq]
+              rfl
+        cases hia : identAttrOf' as with
+        | none =>
+          rw [hia] at h
+          simp only [Option.some.injEq] at h
+          subst h
+          have henter : enter ctx p k as = ctx := by
+            rw [enter_unfold]
+            simp only [hf, Bool.false_eq_true, if_false, hc, hl, if_true, identAttr_eq, hia]
+          exact ⟨hcond, by rw [henter]; exact hi, fun hh => absurd hh hf, fun hh => absurd hh hc⟩
+        | some n =>
+          rw [hia] at h
+          simp only at h
+          by_cases hlf : labelFacts fin recs mc p n = true
+          · rw [if_pos hlf] at h
+            simp only [Option.some.injEq] at h
+            subst h
+            have henter : enter ctx p k as = { ctx with labels := (n, p) :: ctx.labels } := by
+              rw [enter_unfold]
+              simp only [hf, Bool.false_eq_true, if_false, hc, hl, if_true, identAttr_eq, hia]
+            simp only [labelFacts, Bool.and_eq_true] at hlf
+            have hreg : lookupPath fin.identifiers (("identifier", 0) :: p.reverse) = some mc.sid := of_decide_eq_true hlf.1.1
+            have hkey : n ∈ ckeys (effRefs mc.chain) := by simpa using hlf.1.2
+            refine ⟨hcond, ?_, fun hh => absurd hh hf, fun hh => absurd hh hc⟩
+            rw [henter]
+            refine ⟨hi.al, hi.var, hi.chains, hi.env, by simp [hi.labels], ?_⟩
+            intro x hx
+            rcases List.mem_cons.1 hx with rfl | hx
+            · refine ⟨?_, hkey, al_good hi.al⟩
+              intro m
+              have e : tauN (tauFin fin) .label p m = rhoFin fin (("identifier", 0) :: p.reverse) m := rfl
+              rw [e, rho_at hi hreg]
+            · exact hi.lblOK x hx
+          · rw [if_neg hlf] at h; cases h
+      · rw [if_neg hl] at h
+        simp only [Option.some.injEq] at h
+        subst h
+        have henter : enter ctx p k as = ctx := by
+          rw [enter_unfold]
+          simp [hf, hc, hl]
+        refine ⟨?_, by rw [henter]; exact hi, fun hh => absurd hh hf, fun hh => absurd hh hc⟩
+        unfold enterCond
         simp [hf, hc, hl]
-      refine ⟨?_, by rw [henter]; exact hi, fun hh => absurd hh hf, fun hh => absurd hh hc⟩
-      unfold enterCond
-      simp [hf, hc, hl]
 
 end
 end CalmVerif.Obf
